@@ -447,6 +447,17 @@ func (env *SpecEnv) evalCall(x *ast.CallExpr) Val {
 	case "cap":
 		v := env.eval(x.Args[0])
 		return intVal(v.Cap())
+	case "isnan":
+		if !argn(1) {
+			return boolVal(False)
+		}
+		a := env.eval(x.Args[0])
+		if len(a.C) != 1 || a.C[0].Sort != "Flt" {
+			env.errorf("isnan needs a float: %s", exprString(x.Args[0]))
+			return boolVal(False)
+		}
+		env.vc.assumeOnce("flt_nan_isnan", App("flt_isnan", SBool, App("flt_nan", "Flt")))
+		return boolVal(App("flt_isnan", SBool, a.C[0]))
 	case "old":
 		if !argn(1) {
 			return intVal(Zero)
